@@ -988,6 +988,12 @@ class Hist:
             return
         in_map = {l: sub_in[l] for l in leaves}
         out_map = {g: ren[g] for g in outs}
+        if equivalent and len(leaves) <= 4 and len(outs) <= 2 and len(gates) <= 5 and rng.random() < 0.3 and 'cs' in self.m:
+            # the production use: re-synthesise the cone with CircuitFinderSat (SimSAT peer) and splice it in
+            synth = self.synthesised_replacement(rng, net, leaves, outs, v_old, mask, taken)
+            if synth is not None:
+                sub_real, in_map, out_map = synth
+                self.res.stats.probes.bump('replace_subcircuit-with-synthesised-cone')
         pre_tt = self.tt_of(net)
         users = net.users()
         shared = any(any(u not in set(gates) for u in users[g]) for g in gates)
@@ -1019,6 +1025,39 @@ class Hist:
         if not equivalent:
             self.res.stats.probes.bump('replace_subcircuit-nonequivalent')
         self.settle([s], also='C19' if equivalent else None)
+
+    def synthesised_replacement(self, rng, net, leaves, outs, v_old, mask, taken):
+        k = len(leaves)
+        L = 1 << k
+        table = [[bool((v_old[g] >> t) & 1) for t in range(L)] for g in outs]
+        try:
+            fm = self.m['tt'].TruthTableModel(table)
+            for N in range(1, 5):
+                try:
+                    circ = self.m['cs'].CircuitFinderSat(fm, N, basis='FULL').find_circuit()
+                    break
+                except Exception as e:  # noqa
+                    if exc_name(e) != 'NoSolutionError':
+                        return None
+            else:
+                return None
+            if len(set(circ.outputs)) != len(circ.outputs):
+                return None
+            # fresh labels for everything (as the production code does before splicing)
+            in_map, out_map = {}, {}
+            for i, l in enumerate(leaves):
+                lab = self._lab(rng, taken)
+                circ.rename_gate(str(i), lab)
+                in_map[l] = lab
+            for g_old, o in zip(outs, list(circ.outputs)):
+                lab = self._lab(rng, taken)
+                circ.rename_gate(o, lab)
+                out_map[g_old] = lab
+            for g in [x for x in circ.gates if x not in in_map.values() and x not in out_map.values()]:
+                circ.rename_gate(g, self._lab(rng, taken))
+            return circ, in_map, out_map
+        except Exception:
+            return None
 
     def rewrite(self, rng, sub: Net, taken, keep):
         """One function-preserving local rewrite of the model netlist `sub`."""
